@@ -6,6 +6,9 @@ require (
 	github.com/anishathalye/porcupine v1.3.0
 	github.com/codenotary/immudb v0.0.0
 	github.com/google/uuid v1.6.0
+	github.com/prometheus/client_golang v1.12.2
+	github.com/prometheus/client_model v0.2.0
+	google.golang.org/protobuf v1.36.10
 )
 
 require (
@@ -14,8 +17,6 @@ require (
 	github.com/golang/protobuf v1.5.4 // indirect
 	github.com/grpc-ecosystem/grpc-gateway v1.16.0 // indirect
 	github.com/matttproud/golang_protobuf_extensions v1.0.1 // indirect
-	github.com/prometheus/client_golang v1.12.2 // indirect
-	github.com/prometheus/client_model v0.2.0 // indirect
 	github.com/prometheus/common v0.32.1 // indirect
 	github.com/prometheus/procfs v0.7.3 // indirect
 	golang.org/x/net v0.55.0 // indirect
@@ -26,7 +27,6 @@ require (
 	google.golang.org/genproto/googleapis/api v0.0.0-20251202230838-ff82c1b0f217 // indirect
 	google.golang.org/genproto/googleapis/rpc v0.0.0-20251202230838-ff82c1b0f217 // indirect
 	google.golang.org/grpc v1.79.3 // indirect
-	google.golang.org/protobuf v1.36.10 // indirect
 )
 
 replace github.com/codenotary/immudb => /repo
